@@ -65,9 +65,7 @@ def h_positive(locus, tid, i, j, preset, polya=False, parametric=None):
                     "every reported isoform is structurally compatible with the read", detail=det)
         full = (i == 0 and j == len(exons) - 1)
         if full and len(exons) > 1:
-            # full-length: both ends within 10 bp of T's own ends; only an isoform whose intron chain cannot be told
-            # apart from T's within delta may be reported in T's place
-            twins = [u for u in gi.all_isoforms_exons if u != tid and bool(readfam.chains_equal_within(exons, gi.all_isoforms_exons[u], d))]
+            # full-length: both ends within 10 bp of T's own ends
             is_fl = AND(read[0][0] <= exons[0][0] + 10, read[-1][1] >= exons[-1][1] - 10)
             def enddist(u):
                 ue = gi.all_isoforms_exons[u]
@@ -80,13 +78,13 @@ def h_positive(locus, tid, i, j, preset, polya=False, parametric=None):
                 for a_, b_ in zip(ui, ri):
                     acc = acc + abs(a_[0] - b_[0]) + abs(a_[1] - b_[1])
                 return acc
-            # another isoform may take T's place only if the read fits it at least as well: a delta-indistinguishable twin whose
-            # ends are at least as close, or a compatible isoform whose splice sites are STRICTLY closer to the read's (on a tie both are reported)
-            closer_twin = OR([enddist(u) <= enddist(tid) for u in twins if u in rep] +
-                             [AND(intron_chain_compatible(read, gi.all_isoforms_exons[u], d, tol), sitedist(u) < sitedist(tid))
-                              for u in rep if u != tid and u not in twins] or [False])
+            # another isoform may take T's place only if the read fits it STRICTLY better: it is compatible with the read and
+            # (splice-site distance, end distance) is lexicographically smaller than T's; on a tie both must be reported
+            def better(u):
+                return OR(sitedist(u) < sitedist(tid), AND(sitedist(u) == sitedist(tid), enddist(u) < enddist(tid)))
+            closer_twin = OR([AND(intron_chain_compatible(read, gi.all_isoforms_exons[u], d, tol), better(u)) for u in rep if u != tid] or [False])
             g.check(IMPLIES(is_fl, OR(tid in rep, closer_twin)), "the followed isoform is reported for a full-length read "
-                    "(only a delta-indistinguishable isoform whose ends are at least as close may be reported in its place)", detail=det)
+                    "(only an isoform that fits the read strictly better - splice sites, then ends - may be reported in its place)", detail=det)
         others = [u for u in gi.all_isoforms_exons if u != tid]
         only = AND([NOT(intron_chain_compatible(read, gi.all_isoforms_exons[u], d, tol)) for u in others]) if others else True
         g.check(IMPLIES(only, rep == [tid] and t in (RT.unique, RT.unique_minor_difference)),
